@@ -7,6 +7,7 @@ mod miri;
 mod oracle;
 mod proc;
 mod sim;
+mod tick;
 mod types;
 mod workload;
 
@@ -45,6 +46,16 @@ fn main() {
             (Some(i), Some(o)) => oracle::iso_batch_main(i, o, workers),
             _ => 2,
         },
+        "debug-seed" => {
+            let stream = arg_val(&args, "--stream").and_then(|s| s.parse().ok()).unwrap_or(21u64);
+            let idx = arg_val(&args, "--idx").and_then(|s| s.parse().ok()).unwrap_or(0usize);
+            let pad = arg_val(&args, "--pad").and_then(|s| s.parse().ok()).unwrap_or(0usize);
+            driver::debug_seed(&opts, stream, idx, 2, pad)
+        }
+        "hunt" => {
+            let n = arg_val(&args, "--runs").and_then(|s| s.parse().ok()).unwrap_or(20000usize);
+            driver::hunt(&opts, args.get(2).map(|s| s.as_str()).unwrap_or(""), n)
+        }
         "selftest" => {
             let n = arg_val(&args, "--seeds").and_then(|s| s.parse().ok()).unwrap_or(2000usize);
             driver::selftest(&opts, n)
